@@ -17,7 +17,7 @@ func Bind3Context[A, B, C, D any](scope Scope, a Incr[A], b Incr[B], c Incr[C], 
 		return tuple3[A, B, C]{av, bv, cv}
 	})
 	bind := BindContext(scope, m, func(ctx context.Context, bs Scope, tv tuple3[A, B, C]) (Incr[D], error) {
-		return fn(ctx, scope, tv.A, tv.B, tv.C)
+		return fn(ctx, bs, tv.A, tv.B, tv.C)
 	})
 	bind.Node().SetKind(KindBind3)
 	return bind
